@@ -272,7 +272,8 @@ func (x *Exec) callByContract(fr *Frame, st *State, callee *ssa.Function, c *Con
 		if strings.HasPrefix(name, "cell:") && !w.oldObjects {
 			continue // callee-local cells are invisible to the caller
 		}
-		if c.NoFrame || anyOf[name] {
+		if c.NoFrame || anyOf[name] || (strings.HasPrefix(name, "cell:") && w.oldObjects) {
+			// captured variables written by a closure are part of its (implicit) frame
 			x.ctx.hhavoc(st, name, vs, nil, nil, relName(callee), na)
 		} else {
 			x.ctx.hhavoc(st, name, vs, bound, excl[name], relName(callee), na)
